@@ -37,7 +37,10 @@ EXPLANATION = (
     "evaluator (pure decision chain over a finite domain) and its return "
     "guard is compared with the specified predicate on all (entry, config, "
     "tn) triples; when the lookup keeps state between calls (static cache) "
-    "it is evaluated in every state reachable by any sequence of calls. "
+    "it is evaluated in every state reachable by any sequence of calls; for "
+    "the enum values without a layout of their own it must return NULL or an "
+    "entry with period >= 1 and a frame table valid for tn (never the period-0 "
+    "NONE entry, except for NONE itself). "
     "The firmware's channel number -> task mask function is executed for all "
     "256 channel number octets and compared with a reference. The firmware trigger is brought to expression normal form "
     "((fn + A) mod modulo == frame_nr mod modulo, set queued A - 1 frames "
@@ -2640,6 +2643,7 @@ def r2_lookup(L, T):
                 cn, tn, ", whatever lookups preceded it" if LL.state else ""), want, found, ok, tu.line(LL.f),
                 note="evaluated in the %d reachable states of %s" % (len(order), ", ".join(n for _, n in LL.state)) if LL.state else None)
     L.floor("C11.R2", "(combination, timeslot) pairs", npairs, 64)
+    r2_whole_domain(L, T, LL, cfgs, order, results, history)
     if LL.state:
         L.extra["layout_lookup_states"] = len(order)
     rets = [n for n in LL.g.nodes if n.kind == "stmt" and kind(n.ast) == "ReturnStmt" and kids(n.ast)
@@ -2651,6 +2655,63 @@ def r2_lookup(L, T):
     # otherwise (several returns of an entry, state kept between calls) the exhaustive evaluation above,
     # which does not depend on how the function is written, is the whole decision
     return result, LL
+
+
+def r2_whole_domain(L, T, LL, cfgs, order, results, history):
+    """C11.R2, clauses `every (channel combination, timeslot) lookup returns a layout valid for that
+    timeslot` and `no frame lookup for any frame number leaves the table`, for the part of the lookup's
+    domain that has no layout of its own: l1sched_mframe_layout is evaluated exactly for every value of
+    enum gsm_phys_chan_config (plus the macro-defined combinations) that is NOT a combination of layouts[]
+    (today NONE, TCH_F_PDCH, UNKNOWN, _MAX) x tn 0..7 (x every reachable state of its static variables).
+    Whatever it returns is stored in ts->mf_layout by l1sched_configure_ts and read by the burst handlers
+    as frames[fn % period] under a NULL test only, so the value must be NULL ("no such layout") or an
+    entry a frame lookup can use on that timeslot: period >= 1, a frame table, tn in its slotmask.  The
+    only tolerated exception is the request for GSM_PCHAN_NONE itself, which may get the explicit
+    NONE entry (period 0, no table: C11.R1; never configured: thorough tier)."""
+    fname = "l1sched_mframe_layout"
+    none = T.cfg[NONE_CFG]
+    dom = sorted(set(T.cfg.values()) | set(T.extra_cfg.values()))
+    rest = [c for c in dom if c not in cfgs]
+    want = "NULL or a layout with period >= 1, a frame table and the tn bit in its slotmask"
+    for cfg in rest:
+        cn = short_cfg(T.cfg_name(cfg))
+        bad = None
+        kinds = set()
+        for tn in range(8):
+            for st in order:
+                k = (st, cfg, tn)
+                if k not in results:
+                    try:
+                        results[k] = LL.run(cfg, tn, st)
+                    except EvalOOB as e:
+                        results[k] = e
+                r = results[k]
+                f1 = None
+                if isinstance(r, EvalOOB):
+                    f1 = {"tn": tn, "reads": "%s, outside the table" % r}
+                elif r == 0:
+                    kinds.add("NULL")
+                elif isinstance(r, tuple) and r[0] == "elem" and 0 <= r[1] < len(T.layouts):
+                    lay = T.layouts[r[1]]
+                    usable = lay["period"] > 0 and lay["frames"] is not None and bool(lay["slotmask"] >> tn & 1)
+                    own_none = cfg == none and lay["cfg"] == none and bool(lay["slotmask"] >> tn & 1)
+                    if usable or own_none:
+                        kinds.add("layouts[%d] (%s)" % (r[1], T.label(lay)))
+                    else:
+                        f1 = {"tn": tn, "returned": "layouts[%d] (%s)" % (r[1], T.label(lay)), "period": lay["period"],
+                              "frames": lay["frames"] or "NULL", "tn_in_slotmask": bool(lay["slotmask"] >> tn & 1)}
+                else:
+                    f1 = {"tn": tn, "returned": repr(r)}
+                if f1 is not None and bad is None:
+                    bad = f1
+                    h = history(st)
+                    if h:
+                        bad["after_the_lookups"] = " then ".join("(%s, tn %d)" % (short_cfg(T.cfg_name(c)), t) for c, t in h[-3:])
+        L.ob("C11.R2", F_MF, fname,
+             "lookup (%s, tn 0..7), a combination without a layout of its own, returns NULL or a layout a frame lookup can use%s" % (
+                 cn, " (the NONE entry itself for NONE)" if cfg == none else ""),
+             want, bad if bad is not None else sorted(kinds), bad is None, T.tu.line(LL.f))
+    L.floor("C11.R2", "combinations of the enum without a layout of their own evaluated", len(rest), 2)
 
 
 def r2_return_guard(L, T, LL, cfgs, rn):
